@@ -227,22 +227,35 @@ _PROTO = {}
 
 
 def ctor_branch_protocol(I):
-    """PointIsotherm.__init__: `branch == 'ads'` stores the constant 0 into data_raw['branch'], `branch == 'des'` the constant 1
-    (decided on the syntax tree of the current source, cached per model)"""
-    import ast
+    """PointIsotherm.__init__ given a table without a branch column and branch='ads' / 'des' marks every point 0 / 1: decided by
+    interpreting the constructor on a three-row table (whatever the spelling of the dispatch), cached per model"""
+    from .absint import Raised
     model = I.model
     if id(model) in _PROTO:
         return _PROTO[id(model)]
-    init = model.cls("pygaps.core.pointisotherm.PointIsotherm").find_method("__init__")
-    found = {}
-    for n in ast.walk(init.node):
-        if isinstance(n, ast.If) and isinstance(n.test, ast.Compare) and len(n.test.ops) == 1 and isinstance(n.test.ops[0], ast.Eq) \
-                and ast.unparse(n.test.left) == "branch" and isinstance(n.test.comparators[0], ast.Constant) \
-                and n.test.comparators[0].value in CTOR_BRANCH_WORDS and len(n.body) == 1 and isinstance(n.body[0], ast.Assign) \
-                and ast.unparse(n.body[0].targets[0]) == "self.data_raw['branch']" and isinstance(n.body[0].value, ast.Constant):
-            found[n.test.comparators[0].value] = n.body[0].value.value
-    _PROTO[id(model)] = found == CTOR_BRANCH_WORDS
-    return _PROTO[id(model)]
+    ci = model.cls("pygaps.core.pointisotherm.PointIsotherm")
+    init = ci.find_method("__init__")
+    saved = dict(I.overrides)
+    I.overrides.pop("pygaps.core.pointisotherm.PointIsotherm", None)
+    I.overrides["pygaps.core.baseisotherm.BaseIsotherm.__init__"] = lambda I, fi, env, n: None
+    ok = True
+    try:
+        for word, mark in CTOR_BRANCH_WORDS.items():
+            def thunk(I, word=word):
+                frame = MiniFrame({c: [Num.atom(f"{c}{i}") for i in range(3)] for c in ("pressure", "loading")})
+                new = Obj(cls=ci, label="new", attrs={})
+                I.call_func(init, [], {"isotherm_data": frame, "pressure_key": "pressure", "loading_key": "loading", "branch": word}, None, self_obj=new)
+                return new
+            outs = I.explore(thunk)
+            for oc in outs:
+                col = oc.value.attrs.get("data_raw").cols.get("branch") if oc.kind == "ok" and isinstance(oc.value.attrs.get("data_raw"), MiniFrame) else None
+                ok = ok and col is not None and len(col) == 3 and all(isinstance(v, Num) and v.is_const() and v.value() == mark for v in col)
+            ok = ok and bool(outs)
+    finally:
+        I.overrides.clear()
+        I.overrides.update(saved)
+    _PROTO[id(model)] = ok
+    return ok
 
 
 def compare(I, kind, cons, orig, iso):
